@@ -295,6 +295,7 @@ CHECKS = {
             {"entry": M + "/sources/env.HarnessC16EnvPointers", "pkgs": ENVP + ["sort"], "must_reach": ["c16-types-end"]},
             {"entry": M + "/sources/env.HarnessC16EnvNamedElems", "pkgs": ENVP + ["sort"], "must_reach": ["c16-types-end"]},
             {"entry": M + "/sources/env.HarnessC16EnvOddTags", "pkgs": ENVP + ["sort"], "must_reach": ["c16-types-end"]},
+            {"entry": M + "/tagformat.HarnessC16BadTag", "pkgs": ENVP + ["sort"], "must_reach": ["c16-badtag-error"]},
             {"entry": M + "/sources/env.HarnessC16EnvGen2", "pkgs": ENVP + ["sort"], "must_reach": ["c16-envgen-end"]},
             {"entry": M + "/sources/env.HarnessC16EnvGen3", "pkgs": ENVP + ["sort"], "must_reach": ["c16-envgen-end"], "tiers": ["thorough"]},
             {"entry": M + "/sources/env.HarnessC16EnvPtrGen2", "pkgs": ENVP + ["sort"], "must_reach": ["c16-envgen-end"]},
